@@ -1029,7 +1029,7 @@ func main() {
 			coreDepth = *coreFlag
 		}
 		if c.Quick() {
-			c.Deadline = time.Now().Add(100 * time.Second)
+			c.Deadline = time.Now().Add(115 * time.Second)
 		} else {
 			c.Deadline = time.Now().Add(14 * time.Minute)
 		}
